@@ -8,8 +8,8 @@ use syn::spanned::Spanned;
 
 use super::parsing::{
     logged_syn_error, Attr, Condition, Count, CountArg, CustomCompile, Field, FieldReadArgs,
-    FieldType, FieldValidation, Fields, IfTransform, NeededWhen, OffsetTarget, Phase, Record,
-    ReferencedFields,
+    FieldType, FieldValidation, Fields, IfTransform, LenLimit, NeededWhen, OffsetTarget, Phase,
+    Record, ReferencedFields,
 };
 
 impl Fields {
@@ -245,6 +245,23 @@ impl Fields {
                 let typ = self.get_scalar_field_type(ident);
                 Some(quote! {
                     if #maybe_check_is_some self.#name #maybe_unwrap.len() > (#typ::MAX as usize) {
+                        ctx.report("array exceeds max length");
+                    }
+                })
+            } else if let Some((ident, max_len)) = field
+                .attrs
+                .count
+                .as_deref()
+                .and_then(Count::field_with_len_limit)
+            {
+                // the stored count is `len + n` or `len * 2`, so fewer items fit
+                let typ = self.get_scalar_field_type(ident);
+                let max_len = match max_len {
+                    LenLimit::MaxMinus(n) => quote!((#typ::MAX as usize) - #n),
+                    LenLimit::HalfMax => quote!((#typ::MAX as usize) / 2),
+                };
+                Some(quote! {
+                    if #maybe_check_is_some self.#name #maybe_unwrap.len() > #max_len {
                         ctx.report("array exceeds max length");
                     }
                 })
